@@ -42,6 +42,8 @@ def gen_synthetic(run, i):
     model = MODELS[i % 3]
     # (the API accepts any threshold; R2 of a poor fit is negative, of an exact fit 1.0)
     thresh = rng.choice([0.25, 0.25, 0.5, 0.0, None, -0.3, 1.5, 1.0]) if model == 'gain_offset' else 0.25
+    if model == 'gain_offset' and i % 9 == 2:
+        thresh = 1.0          # the top of the documented range: pixels with R2 exactly 1.0 (an exact fit) are NOT below it
     data = np.zeros((3 * n, h, w), dtype='float32')
     for b in range(3 * n):
         k = b // n
